@@ -228,15 +228,15 @@ Definition has_event (ev : string) (fn : string) : option bool :=
   end.
 
 Definition realtime_fns : list string :=
-  ["lib.shared_send_impl.try_send_realtime"; "lib.shared_send_impl.try_send_option_realtime"; "lib.shared_recv_impl.try_recv_realtime"].
+  ["lib.try_send_realtime"; "lib.try_send_option_realtime"; "lib.try_recv_realtime"].
 Theorem realtime_never_use_the_blocking_acquisition :
   forallb (fun fn => match has_event "acquire" fn with Some false => true | _ => false end) realtime_fns = true.
 Proof. vm_compute. reflexivity. Qed.
 
 Definition nonblocking_fns : list string :=
-  ["lib.shared_send_impl.try_send"; "lib.shared_send_impl.try_send_option"; "lib.shared_send_impl.try_send_realtime";
-   "lib.shared_send_impl.try_send_option_realtime"; "lib.shared_recv_impl.try_recv"; "lib.shared_recv_impl.try_recv_realtime";
-   "lib.shared_recv_impl.drain_into"].
+  ["lib.try_send"; "lib.try_send_option"; "lib.try_send_realtime";
+   "lib.try_send_option_realtime"; "lib.try_recv"; "lib.try_recv_realtime";
+   "lib.drain_into"].
 Theorem nonblocking_never_wait :
   forallb (fun fn => match has_event "wait" fn with Some false => true | _ => false end) nonblocking_fns = true.
 Proof. vm_compute. reflexivity. Qed.
@@ -245,7 +245,7 @@ Proof. vm_compute. reflexivity. Qed.
 Definition blocking_fns : list string :=
   ["lib.Sender.send"; "lib.Sender.send_timeout"; "lib.Sender.send_option_timeout"; "lib.Receiver.recv"; "lib.Receiver.recv_timeout";
    "future.SendFuture.Future.poll"; "future.ReceiveFuture.Future.poll"; "future.SendFuture.Drop.drop"; "future.ReceiveFuture.Drop.drop";
-   "lib.shared_impl.close"; "lib.Sender.Drop.drop"; "lib.Receiver.Drop.drop"; "lib.Sender.Clone.clone"; "lib.Receiver.Clone.clone"].
+   "lib.close"; "lib.Sender.Drop.drop"; "lib.Receiver.Drop.drop"; "lib.Sender.Clone.clone"; "lib.Receiver.Clone.clone"].
 Theorem entry_points_are_covered :
   forallb (fun fn => match has_event "acquire" fn with Some true => true | _ => false end) blocking_fns = true.
 Proof. vm_compute. reflexivity. Qed.
